@@ -44,8 +44,8 @@ def run(ctx):
     quick = ctx.tier == "quick"
     ctx.rule = ("one case = one Merge(mine, other, localCAS, now) of the enumerated universe (receiver and change compared), one "
                 "convergence triple (7 schedule shapes x 6 permutations executed, final descriptor compared) or one recorded Merge "
-                "call accepted by the trace specification; non-trivial = the merge changes the receiver (non-nil change) / at least two "
-                "of the three updates are non-empty; distinct = distinct TLC states (operand tuples)")
+                "call accepted by the trace specification; non-trivial = the merge changes the receiver (non-nil change; also for recorded "
+                "calls) / at least two of the three updates are non-empty; distinct = distinct TLC states (operand tuples)")
     ctx.assumptions = ["receivers are normalised (sorted, duplicate-free token lists; LEFT without tokens) as Desc.Merge requires",
                        "timestamps are unix seconds: specification time t>0 is 2000-01-01T00:00:00Z + t s on the synctest clock, 0 is 0",
                        "instance ids i-1..i-9 / i-01..i-12 (string order = numeric order)"]
@@ -91,7 +91,7 @@ def run(ctx):
     tn, tm, tnp, tno = 12, 24, 8, 6
     steps = 500 if quick else 6000
     env = {"VERIF_IN": cases, "VERIF_TRACE_DIR": tdir, "VERIF_TN": tn, "VERIF_TM": tm, "VERIF_TNP": tnp, "VERIF_TNO": tno,
-           "VERIF_TSTEPS": steps, "VERIF_REPS": 3}
+           "VERIF_TSTEPS": steps, "VERIF_TMAXNOW": max(60, steps // 4), "VERIF_REPS": 3}
     if os.environ.get("VERIF_CORRUPT"):
         env["VERIF_CORRUPT"] = os.environ["VERIF_CORRUPT"]
     res = ctx.run_harness("c03", "^TestC03$", env=env, timeout=3000)
@@ -106,5 +106,4 @@ def run(ctx):
     n2 = rc.validate_trace(ctx, "PartitionMergeTrace", os.path.join(tdir, "part_trace.ndjson"),
                            {"@@NP@@": tnp, "@@NO@@": tno, "@@NREP@@": 3}, "partition trace", "part:trace")
     ctx.extra["trace_events_validated"] = n1 + n2
-    ctx.nontrivial += n1 + n2
     return "model_checking"
